@@ -12,7 +12,7 @@ TOL = 1e-12
 
 
 def index_list(rng, T, present):
-    kind = rng.choice(["interior", "interior", "zero", "last", "beyond", "dup", "empty", "unsorted", "mixed"])
+    kind = rng.choice(["interior", "interior", "zero", "last", "beyond", "dup", "empty", "unsorted", "mixed", "repeat"])
     T = max(T, 1)
     inner = list(range(1, max(2, T - 1)))
     if kind == "interior":
@@ -27,6 +27,9 @@ def index_list(rng, T, present):
         return (rng.sample(present, min(len(present), 2)) if present else []) + rng.sample(inner, 1)
     if kind == "empty":
         return []
+    if kind == "repeat":
+        x = rng.choice(inner)
+        return [x, x] + (rng.sample(inner, 1) if rng.random() < 0.4 else [])
     if kind == "unsorted":
         x = rng.sample(inner, min(len(inner), 3))
         x.sort(reverse=True)
